@@ -7,6 +7,8 @@ import FoxModel.Model.Machine
 import FoxModel.Model.Tree
 import FoxModel.Model.WF
 import FoxModel.Model.InsScan
+import FoxModel.Model.NodeRep
+import FoxModel.Model.SearchLoop
 /-
   FoxModel.Driver.Ops — line-protocol handler for the `ops` stream: a case is a list of operations on one
   router (registrations, deletions, truncations, readers, lookups); the handler runs it through the executable
@@ -94,6 +96,14 @@ def dumpRoots (rs : Roots) : String :=
   String.join (rs.map fun (m, n) => match n with
     | .mk _ r cs => dumpNode (.mk (m.map Tok.lit) r cs) ++ ";")
 
+/-- the derived fields of every node, as `VerifDumpRep` prints them: `childKeys`, `paramChildIndex`,
+    `wildcardChildIndex` computed by the model of `newNode`'s loop (Model/NodeRep) -/
+partial def dumpRepNode : Node → String
+  | .mk _ _ cs => toHex (NodeRep.childKeys cs) ++ "|" ++ toString (NodeRep.paramChildIndex cs) ++ "|"
+      ++ toString (NodeRep.wildcardChildIndex cs) ++ ";" ++ String.join (cs.map dumpRepNode)
+
+def dumpRep (rs : Roots) : String := String.join (rs.map fun x => dumpRepNode x.2)
+
 def stepBase (st : St) (op : String) : St :=
   match op.splitOn "," with
   | ["H", m, pat, flags, hid] =>
@@ -140,7 +150,11 @@ def stepBase (st : St) (op : String) : St :=
     if hasEmptySeg (fromHex! path) then (st.emit (showResultH res) "skip").tag "lk-emptyseg-unspecified" else
     (lookupTags res (fromHex! host)).foldl St.tag (st.emit (showResultH res) (showSpecFoundH sp))
   | ["R", m, pat] =>
-    let res := st.tree.has (ascii m) (fromHex! pat)
+    -- `roots.route` through the loops of `roots.search` (Model/SearchLoop), cross-checked with the model's search
+    let res := match methodRoot st.tree.roots (ascii m) with
+      | some root => SearchLoop.routeOfM root (fromHex! pat)
+      | none => none
+    let st := if (res.map (·.hid)) == ((st.tree.has (ascii m) (fromHex! pat)).map (·.hid)) then st else st.tag "machine-vs-walk"
     let sp := match tokenize (fromHex! pat) with
       | some toks => st.store.get (ascii m) toks
       | none => none
@@ -157,11 +171,15 @@ def stepBase (st : St) (op : String) : St :=
     -- `Iter.Prefix(methods, prefix)`: the methods in the given order (repetitions included), each with its routes
     let p := fromHex! pre
     let methods := (splitNonEmpty ms "+").map ascii
-    let items := methods.flatMap fun m => (st.tree.prefix m p).map fun r => showBytes m ++ ":" ++ toHex r.text
+    -- the loops of iter.go (Model/SearchLoop.prefixM: `roots.search`, then the explicit-stack traversal run to its end)
+    let viaLoops := methods.map fun m => SearchLoop.prefixM st.tree m p (st.tree.size + 1)
+    let st := if viaLoops == (methods.map fun m => some (st.tree.prefix m p)) then st else st.tag "machine-vs-walk"
+    let items := (methods.zip viaLoops).flatMap fun (m, l) => (l.getD []).map fun r => showBytes m ++ ":" ++ toHex r.text
     let sitems := methods.flatMap fun m =>
       ((st.store.routesOf m).filter fun r => p.isPrefixOf r.text).map fun r => showBytes m ++ ":" ++ toHex r.text
     st.emit (join items "+") (join (sortStrings sitems) "+")
-  | ["X"] => st.emit (dumpRoots st.tree.roots ++ " size=" ++ toString st.tree.size ++ " mp=" ++ toString st.tree.maxParams ++ " depth=" ++ toString st.tree.depth) "-"
+  | ["X"] => st.emit (dumpRoots st.tree.roots ++ " size=" ++ toString st.tree.size ++ " mp=" ++ toString st.tree.maxParams ++ " depth=" ++ toString st.tree.depth
+      ++ " rep=" ++ dumpRep st.tree.roots) "-"
   | _ => st.emit "bad-op" "bad-op"
 
 /-- `G,<o|e>,<op>&<op>…` (inner fields separated by `:`): the inner writes run in one write transaction that is
@@ -182,7 +200,7 @@ def step (st : St) (op : String) : St :=
 def stepChecked (st : St) (op : String) : St :=
   let st' := step st op
   if wfRoots st'.tree.roots && hostOkRoots st'.tree.roots && patOkRoots st'.tree.roots
-      && InsScan.fragOkRoots st'.tree.roots then st' else st'.tag "wf-violated"
+      && InsScan.fragOkRoots st'.tree.roots && NodeRep.srtRoots st'.tree.roots then st' else st'.tag "wf-violated"
 
 /-- fields: ["ops", "<op>;<op>;…"] -/
 def handle (fields : List String) : String :=
